@@ -344,6 +344,20 @@ def generate_loops(prop, repo=None):
             else:
                 lines.append("  exact I.")
             lines.append("Qed.")
+            # run on ANY list d of simulated values (the dist of the model's keep_dist=True path), the loop stores d / counts its tails
+            if nstore == 1:
+                lines += [f"Theorem G9_{site}_{k}_stores_the_values : forall (d : list Q) (ref : Q), exists st',",
+                          f"  loop (value_of d) ref {nm} (length d) st_init = Some st' /\\ LoopShape.dist st' = d.",
+                          f"Proof. intros d ref. destruct (shaped_loop_on_model_values {nm} {nm}_shape d ref st_init eq_refl) as [st' [E [L _]]].",
+                          f"  exists st'. split; [exact E|]. rewrite L, (proj1 {nm}_meaning). reflexivity. Qed."]
+            for i, (_, op) in enumerate(exp_counts):
+                tail = {"CGe": "count_ge ref d", "CLe": "count_le ref d"}.get(op)
+                if tail is None:
+                    continue
+                lines += [f"Theorem G9_{site}_{k}_counter_{i}_is_the_tail_count : forall (d : list Q) (ref : Q), exists st',",
+                          f"  loop (value_of d) ref {nm} (length d) st_init = Some st' /\\ cnt st' {i} = {tail}.",
+                          f"Proof. intros d ref. destruct (shaped_loop_on_model_values {nm} {nm}_shape d ref st_init eq_refl) as [st' [E [_ C]]].",
+                          f"  exists st'. split; [exact E|]. rewrite (C {i} {op}) by (rewrite (proj2 {nm}_meaning); cbn; tauto). reflexivity. Qed."]
             # the translated loop, run on the statistics the MODEL's loop produces on a tape, returns the model's results
             if (site, k) == ("two_sample_core", 0):
                 lines += [f"Theorem G9_{site}_{k}_is_the_model : forall s pot nx rr reps t tst d ar t', core_loop s pot nx rr reps t = Ok (d, ar, t') ->",
